@@ -361,6 +361,7 @@ func main() {
 		os.Exit(1)
 	}
 	anonCalls, anonToQlog, anonToServer := anonymizerFacts(homePkg)
+	finderFuncs, finderTryLocks := finderFacts(homePkg)
 	if pkg == nil {
 		fmt.Fprintln(os.Stderr, "extract c08: package internal/dnsforward not loaded")
 		os.Exit(1)
@@ -450,6 +451,7 @@ func main() {
 	fmt.Fprintf(&sb, "def idsAssignments : Nat := %d\n", x.idsAssign)
 	fmt.Fprintf(&sb, "/-- rank of `realIPStr := …` and of `ipStr := …` among the positions above -/\ndef realIPStrPos : Nat := %d\ndef ipStrPos : Nat := %d\n", rank(x.realPos), rank(x.ipStrPos))
 	fmt.Fprintf(&sb, "\n/-- internal/home: calls of (*configuration).anonymizer(); whether the variable holding the\nresult of the (single) call is the `Anonymizer` of the querylog.Config literal, and an argument of\nthe initDNSServer call (1 yes, 0 no) -/\ndef anonymizerCalls : Nat := %d\ndef anonymizerToQueryLog : Nat := %d\ndef anonymizerToServer : Nat := %d\n", anonCalls, anonToQlog, anonToServer)
+	fmt.Fprintf(&sb, "\n/-- internal/home: how many of findMultiple / clientOrArtificial / shouldCountClient (the client\ncallbacks of the query log and the statistics) were found, and the TryLock / TryRLock calls in them -/\ndef finderFuncs : Nat := %d\ndef finderTryLocks : Nat := %d\n", finderFuncs, finderTryLocks)
 	sb.WriteString("\nend AGH.Gen.C08\n")
 	must(os.MkdirAll(filepath.Dir(genPath), 0o755))
 	must(os.WriteFile(genPath, []byte(sb.String()), 0o644))
@@ -539,6 +541,35 @@ func anonymizerFacts(hp *packages.Package) (calls, toQlog, toServer int) {
 	}
 
 	return calls, toQlog, toServer
+}
+
+// finderFacts looks at the client callbacks of package home: a lock that is only
+// tried lets the lookup be skipped under contention.
+func finderFacts(hp *packages.Package) (funcs, tryLocks int) {
+	want := map[string]bool{"findMultiple": true, "clientOrArtificial": true, "shouldCountClient": true}
+	for _, f := range hp.Syntax {
+		if strings.HasSuffix(hp.Fset.Position(f.Pos()).Filename, "_test.go") {
+			continue
+		}
+		for _, d := range f.Decls {
+			fd, ok := d.(*ast.FuncDecl)
+			if !ok || fd.Body == nil || fd.Recv == nil || !want[fd.Name.Name] {
+				continue
+			}
+			funcs++
+			ast.Inspect(fd.Body, func(n ast.Node) bool {
+				if ce, isCall := n.(*ast.CallExpr); isCall {
+					if se, isSel := ce.Fun.(*ast.SelectorExpr); isSel && (se.Sel.Name == "TryLock" || se.Sel.Name == "TryRLock") {
+						tryLocks++
+					}
+				}
+
+				return true
+			})
+		}
+	}
+
+	return funcs, tryLocks
 }
 
 func relPath(where string) string {
